@@ -241,6 +241,48 @@ def run_check(pid, tier, replay=None):
             res = run_shards(pid, tier, vt, v, binaries[v["name"]], wdir, seed)
             all_results += [(v, r) for r in res]
 
+    # ---- native fuzzing campaigns (thorough tier only; time-boxed, not seed-reproducible: the saved input is the reproducible unit)
+    fuzz_stats = {}
+    if tier == "thorough" and not replay:
+        for target, secs in cfg.get("fuzz", []):
+            secs = max(5, int(secs * float(os.environ.get("VERIF_FUZZ_SCALE", "1") or "1")))
+            fb = build(pid, builds[0], fuzz=True)
+            if fb is None:
+                log("INCONCLUSIVE property=%s fuzz build failed" % pid)
+                return 2
+            tag = "fuzz-" + target
+            env = dict(GOENV)
+            env.update({
+                "VERIF_OUT": os.path.join(wdir, "shard-%s.json" % tag), "VERIF_HASHES": "", "VERIF_JOURNAL": "",
+                "VERIF_REPLAY_DIR": rdir, "VERIF_KNOWN": os.path.join(VERIF, "known_findings.json"),
+                "VERIF_SEED": str(seed), "VERIF_TIER": tier, "VERIF_SHARD": "0", "VERIF_NSHARDS": "1", "VERIF_SCALE": "1",
+            })
+            fdir = os.path.join(wdir, tag)
+            os.makedirs(fdir, exist_ok=True)
+            args = [fb, "-test.run", "^$", "-test.fuzz", "^%s$" % target, "-test.fuzztime", "%ds" % secs,
+                    "-test.fuzzcachedir", os.path.join(fdir, "cache"), "-test.parallel", str(NCPU), "-test.timeout", "%ds" % (secs + 900)]
+            logp = os.path.join(wdir, "log-%s.txt" % tag)
+            with open(logp, "w") as lf:
+                try:
+                    fr = subprocess.run(args, cwd=fdir, env=env, stdout=lf, stderr=subprocess.STDOUT, timeout=secs + 1200,
+                                        preexec_fn=set_limits(cfg.get("vlimit_gb")))
+                    frc = fr.returncode
+                except subprocess.TimeoutExpired:
+                    frc = "timeout"
+            txt = tail(logp, 20000)
+            import re as _re
+            ex = _re.findall(r"execs: (\d+)", txt)
+            fuzz_stats[target] = dict(seconds=secs, execs=int(ex[-1]) if ex else 0, exit=frc)
+            if frc not in (0, "timeout"):
+                found = sorted(glob.glob(os.path.join(rdir, "%s-%s-*.json" % (pid, target))))
+                crashers = sorted(glob.glob(os.path.join(fdir, "testdata", "fuzz", target, "*")))
+                if found:
+                    all_results.append((builds[0], dict(tag=tag, rc=0, env=env, fuzz_violation=(found[0], "native fuzzing (%s) found a failing input" % target))))
+                elif crashers:
+                    all_results.append((builds[0], dict(tag=tag, rc=0, env=env, fuzz_violation=(crashers[0], "native fuzzing (%s) crashed; input saved by go test" % target))))
+                else:
+                    all_results.append((builds[0], dict(tag=tag, rc=frc, env=env)))
+
     # ---- collect
     violations = []      # (replay path, description)
     known = []
@@ -256,6 +298,9 @@ def run_check(pid, tier, replay=None):
     capped = False
     counted = 0
     for v, r in all_results:
+        if r.get("fuzz_violation"):
+            violations.append(r["fuzz_violation"])
+            continue
         out = r["env"]["VERIF_OUT"]
         doc = None
         if os.path.exists(out):
@@ -347,7 +392,7 @@ def run_check(pid, tier, replay=None):
         "wall_s": round(wall, 2),
         "violations": len(violations),
         "coverage": {
-            "evaluations": int(evaluations),
+            "evaluations": int(evaluations) + sum(v["execs"] for v in fuzz_stats.values()),
             "distinct_nontrivial": int(distinct),
             "rule": rule,
             "samples": samples,
@@ -360,6 +405,7 @@ def run_check(pid, tier, replay=None):
             "known_findings_reported": known,
             "notes": notes,
             "inconclusive": inconclusive,
+            "native_fuzzing": fuzz_stats,
         },
         "assumptions": cfg["assumptions"],
     }
